@@ -3,7 +3,7 @@
 (* exported as one record with the whole row of ideal results.                      *)
 (*   DATE    : (y, m) x d in DLo..DHi            -> serial (or -1 outside 1900-03-01..9999-12-31) *)
 (*   EDATE   : start date x month offsets         -> EDATE and EOMONTH serials        *)
-(*   DATEDIF : start date x later dates of the grid -> D, M, Y, YM (-1: not demanded)  *)
+(*   DATEDIF : start date x later dates of the grid -> D, M, Y, YM  *)
 (*   NWD     : (start date, holiday subset) x end dates of the window -> NETWORKDAYS   *)
 EXTENDS XlCalendar, Json
 CONSTANTS Kind, Thorough
@@ -31,7 +31,7 @@ DGrid == IF Thorough THEN {s \in D0..D1 : (s - D0) % 3 = 0 \/ IsMonthEnd(s) \/ C
 SetToSeq(S) == LET RECURSIVE F(_, _)
                    F(R, lo) == IF R = {} THEN <<>> ELSE LET x == CHOOSE y \in R : \A z \in R : y <= z IN <<x>> \o F(R \ {x}, x)
                IN F(S, 0)
-DifRow(s1, ends, u) == [i \in 1..Len(ends) |-> IF u # "D" /\ AmbiguousMonths(s1, ends[i]) THEN -1 ELSE DateDif(u, s1, ends[i])]
+DifRow(s1, ends, u) == [i \in 1..Len(ends) |-> DateDif(u, s1, ends[i])]
 \* ---- NETWORKDAYS ----
 N0 == Serial(2024, 4, 22)          \* a Monday
 NLen == IF Thorough THEN 42 ELSE 21
